@@ -53,9 +53,20 @@ FINDING_TEXT = {
 }
 FOUND = {}
 
+def _sw(name, default="TRUE"):
+    v = os.environ.get(name, default).upper()
+    if v not in ("TRUE", "FALSE"):
+        raise MachineryError("%s must be TRUE or FALSE" % name)
+    return v
+
+
+# TRUE = the code as found at HEAD; set to FALSE (environment or here) once /repo carries the repair out/proposed_fixes/G06_*.diff
+SW = {"NodesFatal": _sw("G06_NODES_FATAL"), "DeleteConnEscapes": _sw("G06_DELETE_CONN_ESCAPES"), "KillForgotten": _sw("G06_KILL_FORGOTTEN"),
+      "CompleteNeedsPod": _sw("G06_COMPLETE_NEEDS_POD"), "FirstConditionWins": _sw("G06_FIRST_CONDITION_WINS")}
+
 BASE = dict(Part='"run"', Emit="FALSE", Gcs='{"none"}', Archives='{"none"}', Caches="{TRUE}", CreateKinds='{"ok"}', Kinds="{}", Froms="{}",
             KillFroms="{}", Mids="{}", MaxTicks=4, MaxKills=0, MaxBad=0, MaxMid=0, MaxPeek=0, Outcomes='{"ok"}', Pendings="{}", MaxDel=0,
-            JobDel="FALSE", PodGC="FALSE", TwoPhase="FALSE", Lost="FALSE", Interrupts="FALSE", MapSlice='"quick"')
+            JobDel="FALSE", PodGC="FALSE", TwoPhase="FALSE", Lost="FALSE", Idle="FALSE", Interrupts="FALSE", MapSlice='"quick"', **SW)
 
 RUN_INV = ["TypeOK", "ResultIffDead", "DeadIsFinal", "FinishedIsSuccess", "FailedHasReason", "NotFinalNoVerdict", "SuccessIsReal", "PullVerdict",
            "TerminatedMeansDeleted", "ArchiveRule", "GcRule", "EscapeRule", "VerdictHasCause", "VerdictIsFunctionOfOutcome"]
@@ -109,7 +120,7 @@ def slices(tier):
     th = tier == "thorough"
     s = {}
     # the life of a healthy job: every outcome, pending situations, cluster changes inside a poll, a kill at any point, wait()
-    s["life"] = dict(Outcomes=sset(ALL_OUT), Pendings='{"creating", "errpull"}', MaxTicks=4 if th else 3, MaxKills=1, Mids="{1, 2}", MaxMid=1,
+    s["life"] = dict(Outcomes=sset(ALL_OUT), Pendings='{"creating", "errpull"}' if th else '{"creating"}', MaxTicks=4 if th else 3, MaxKills=1, Mids="{1, 2}", MaxMid=1, Idle="TRUE",
                      MaxPeek=1, Gcs='{"none", "all"}' if th else '{"none"}', Interrupts="TRUE" if th else "FALSE")
     # configuration: garbage collection and archiving rules, cacheImage off, creation failures
     s["config"] = dict(Outcomes='{"ok", "err"}', Gcs='{"none", "all", "failed", "successful"}', Archives='{"none", "all", "failed", "successful"}',
@@ -117,16 +128,17 @@ def slices(tier):
     # image pull errors: the budget of 5 (+1) observations, also spent by terminate()
     s["pull"] = dict(Outcomes='{"deadline0"}', Pendings='{"errpull"}', MaxTicks=7, MaxKills=1 if th else 0, Gcs='{"none", "failed"}')
     # an API outage over many polls: limits (5 minutes / 3 polls), every failure kind, at the first or a later request
-    s["outage"] = dict(Outcomes='{"ok"}', Kinds=sset(["e503", "e504", "conn"]), Froms="{1, 2}", MaxTicks=7, MaxBad=6)
+    s["outage"] = dict(Outcomes='{"ok"}', Kinds=sset(["e503", "conn"] + (["e504"] if th else [])), Froms="{1, 2}" if th else "{1}", MaxTicks=7 if th else 6,
+                       MaxBad=6 if th else 5)
     # failures at every request position of a step (nodes call, log calls, deletion, ...), blips (retry succeeds)
-    s["faults"] = dict(Outcomes='{"ok", "err"}', Kinds=sset(ALL_KINDS), Froms="{1, 2, 3, 4, 5}", KillFroms="{1, 2, 3, 4, 5}", MaxTicks=3, MaxBad=1 if not th else 2,
+    s["faults"] = dict(Outcomes='{"ok", "err"}' if th else '{"ok"}', Kinds=sset(ALL_KINDS), Froms="{1, 2, 3, 4, 5, 6}", KillFroms="{1, 2, 3, 4, 5}", MaxTicks=3 if th else 2, MaxBad=1,
                        MaxKills=1, Gcs='{"none", "all"}', Archives='{"none", "all"}' if th else '{"none"}', Interrupts="TRUE")
     # other actors: pod deleted (replacement -> two pods), job deleted, pod object garbage-collected, node lost, two-phase conditions
-    s["others"] = dict(Outcomes='{"ok", "err"}', MaxDel=1, JobDel="TRUE", PodGC="TRUE", Lost="TRUE", MaxTicks=5 if th else 4, MaxKills=1, Gcs='{"none", "all"}')
+    s["others"] = dict(Outcomes='{"ok", "err"}', MaxDel=1, JobDel="TRUE", PodGC="TRUE", Lost="TRUE", MaxTicks=5 if th else 3, MaxKills=1, Gcs='{"none", "all"}' if th else '{"none"}')
     s["twophase"] = dict(Outcomes='{"ok", "err"}', TwoPhase="TRUE", MaxTicks=3, MaxKills=1)
     # kill under an outage, twice, with two pods
-    s["kills"] = dict(Outcomes='{"ok"}', Kinds=sset(["e503", "conn", "e504"]), Froms="{1}", KillFroms="{1, 2, 3, 4}", MaxTicks=3, MaxBad=2, MaxKills=2, MaxDel=1,
-                      Interrupts="TRUE")
+    s["kills"] = dict(Outcomes='{"ok"}', Kinds=sset(["e503", "conn"] + (["e504"] if th else [])), Froms="{1}", KillFroms="{1, 2, 4}" if th else "{1, 3}", MaxTicks=2,
+                      MaxBad=2 if th else 1, MaxKills=2, MaxDel=1, Interrupts="TRUE")
     return s
 
 
@@ -159,21 +171,28 @@ def model_check(chk, tier):
         ("KillIsTerminate", "INVARIANT", "SomeoneIsKilled", dict(Outcomes='{"oom"}', MaxKills=1)),
         ("OomIsKilled", "INVARIANT", "OomIsResourceExhausted", dict(Outcomes='{"oom"}')),
         ("RunningIsActive", "INVARIANT", "RunningMeansPodRunning", dict(Pendings='{"creating"}')),
-        ("RunningIsActive/back-to-waiting", "PROPERTY", "StrictlyForward", dict(MaxDel=1, MaxTicks=4)),
+        ("RunningIsActive/back-to-waiting", "PROPERTY", "StrictlyForward", dict(Idle="TRUE", MaxTicks=4)),
         ("PollDependentReason", "INVARIANT", "VerdictIndependentOfPolling", dict(Outcomes='{"evicted"}', MaxTicks=4)),
         ("ConnOutageThreePolls", "PROPERTY", "OutageNeedsMinutes", dict(Kinds='{"conn"}', Froms="{1}", MaxBad=3, MaxTicks=4)),
         ("GivesUpWithoutDelete", "INVARIANT", "GivingUpDeletes", dict(Kinds='{"conn"}', Froms="{1}", MaxBad=3, MaxTicks=4)),
-        ("finding:NodesCallIsFatal", "INVARIANT", "NoFatalNodesCall", dict(Kinds='{"e503"}', Froms="{1, 2, 3, 4}", MaxBad=1, Pendings="{}")),
-        ("finding:KillLost", "PROPERTY", "KillAlwaysWorks", dict(Kinds='{"e503"}', KillFroms="{1}", MaxBad=1, MaxKills=1)),
-        ("finding:KillLost/two-pods", "PROPERTY", "KillAlwaysWorks", dict(MaxDel=1, MaxKills=1)),
-        ("finding:CompleteButPodGone", "PROPERTY", "Ends", dict(PodGC="TRUE", MaxTicks=99), "FairRun"),
-        ("finding:NonTerminalFirst", "INVARIANT", "NeverNoneState", dict(TwoPhase="TRUE")),
-        ("finding:GcErrorFlipsVerdict", "INVARIANT", "NoGcFlip", dict(Gcs='{"all"}', Kinds='{"conn"}', Froms="{1, 2, 3, 4, 5, 6}", MaxBad=1)),
+        ("TwoPodsThreePolls", "INVARIANT", "NoVerdictFromConfusion", dict(MaxDel=1, MaxTicks=5)),
+        ("finding:NodesCallIsFatal", "INVARIANT", "NoFatalNodesCall", dict(Kinds='{"e503"}', Froms="{1, 2, 3, 4}", MaxBad=1, Pendings="{}"), "SpecRun", "NodesFatal"),
+        ("finding:KillLost", "PROPERTY", "KillLeadsToEnd" if SW["KillForgotten"] == "FALSE" else "KillAlwaysWorks",
+         dict(Kinds='{"e503", "conn"}', KillFroms="{1, 3}", MaxBad=1, MaxKills=1, MaxTicks=99 if SW["KillForgotten"] == "FALSE" else 4),
+         "FairRun" if SW["KillForgotten"] == "FALSE" else "SpecRun", "KillForgotten"),
+        ("finding:KillLost/two-pods", "PROPERTY", "KillLeadsToEnd" if SW["KillForgotten"] == "FALSE" else "KillAlwaysWorks",
+         dict(MaxDel=1, MaxKills=1, MaxTicks=99 if SW["KillForgotten"] == "FALSE" else 4), "FairRun" if SW["KillForgotten"] == "FALSE" else "SpecRun", "KillForgotten"),
+        ("finding:KillLost/connection-error-escapes", "INVARIANT", "NothingEscapesFromKill", dict(Kinds='{"conn"}', KillFroms="{1, 2, 3}", MaxBad=1, MaxKills=1), "SpecRun",
+         "DeleteConnEscapes"),
+        ("finding:CompleteButPodGone", "PROPERTY", "Ends", dict(PodGC="TRUE", MaxTicks=99), "FairRun", "CompleteNeedsPod"),
+        ("finding:NonTerminalFirst", "INVARIANT", "NeverNoneState", dict(TwoPhase="TRUE"), "SpecRun", "FirstConditionWins"),
+        ("finding:GcErrorFlipsVerdict", "INVARIANT", "NoGcFlip", dict(Gcs='{"all"}', Kinds='{"conn"}', Froms="{1, 2, 3, 4, 5, 6}", MaxBad=1), "SpecRun", "DeleteConnEscapes"),
     ]
     for d in dev:
         name, kind, prop, consts = d[:4]
         spec = d[4] if len(d) > 4 else "SpecRun"
-        jobs.append(("deviation:" + name, consts, "SPECIFICATION %s\n%s %s\n" % (spec, kind, prop), prop))
+        repaired = len(d) > 5 and SW[d[5]] == "FALSE"
+        jobs.append((("repaired:" if repaired else "deviation:") + name, consts, "SPECIFICATION %s\n%s %s\n" % (spec, kind, prop), None if repaired else prop))
     # function specifications: promises on the grids
     jobs.append(("map-grid", dict(Part='"map"', MapSlice='"full"' if tier == "thorough" else '"quick"'), body(None, ["MapTotal", "MapNoEarlyVerdict"]), None))
     jobs.append(("map-grid-api", dict(Part='"map"', MapSlice='"api"'), body(None, ["MapTotal"]), None))
@@ -237,7 +256,7 @@ def spec_view(ts):
     v = {"job": ts["cl"]["job"], "pods": ts["cl"]["pods"], "created": ts["created"]}
     if ts["created"]:
         v.update(last=[ts["last"]["st"], ts["last"]["rs"], ts["last"]["rc"]], started=ts["started"], pull=ts["pull"], errs=ts["errs"], age=ts["age"], off=ts["off"],
-                 cached=ts["cached"], closed=ts["closed"], done=ts["done"], terminated=ts["terminated"], called=ts["called"], archived=ts["archived"],
+                 cached=ts["cached"], closed=ts["closed"], done=ts["done"], terminated=ts["terminated"], called=ts["called"], req=ts["req"], archived=ts["archived"],
                  ndel=ts["g"]["ndel"], alive=ts["pub"]["alive"], rc=ts["pub"]["rc"], reason=ts["pub"]["reason"], status=ts["pub"]["status"])
     return v
 
@@ -255,7 +274,7 @@ def real_view(D):
         tick0 = D.last_tick_start / G.UNIT
         v.update(last=[st if st is not None else "None", rs or "none", -1 if rc is None else rc], started=m["started"], pull=m["pullerrs"], errs=m["errs"],
                  age=-1000 if m["since"] is None else _num(tick0 - m["since"]), off=_num(now - tick0), cached=m["cached"], closed=m["closed"], done=o["done"],
-                 terminated=o["terminated"], called=m["called"], archived=D.archive_calls, ndel=c.deletes_ok, alive=o["alive"], rc=o["rc"], reason=o["reason"],
+                 terminated=o["terminated"], called=m["called"], req=bool(getattr(t, "_terminate_requested", False)), archived=D.archive_calls, ndel=c.deletes_ok, alive=o["alive"], rc=o["rc"], reason=o["reason"],
                  status=o["state"])
     return v
 
@@ -459,12 +478,433 @@ def transition_cover(chk, name, edges):
 def spec_to_code(chk, tier):
     sl = slices(tier)
     plan = [(name, sl[name]) for name in sl]
+    t0 = time.time()
     all_edges = emit_transitions(chk, plan)
+    walls = {"emission": round(time.time() - t0, 1)}
     for (name, _c), edges in zip(plan, all_edges):
+        t0 = time.time()
         transition_cover(chk, name, edges)
+        walls[name] = round(time.time() - t0, 1)
+    chk.cov["cover_wall_s"] = walls
     missing = [a for a in ACTIONS if not chk.cov["action_coverage"].get(a)]
     if missing:
         raise MachineryError("action(s) %s of K8sTask.tla have zero coverage in the emitted transition graphs" % missing)
+
+
+# --------------------------------------------------------------------------------------------------------------------------
+# 3. code -> spec: seeded random schedules validated by TLC
+
+def P(ph, prs="none", cs="nocs", code=0, trs="none", sig=0, tst=False):
+    return dict(ph=ph, prs=prs, cs=cs, code=code, trs=trs, sig=sig, tst=tst)
+
+
+PK = {"unsched": P("Pending"), "creating": P("Pending", cs="waiting"), "errpull": P("Pending", cs="errpull"), "running": P("Running", cs="running"),
+      "lost": P("Unknown", "NodeLost", "running"), "ok": P("Succeeded", cs="term", trs="Completed", tst=True), "err": P("Failed", cs="term", code=1, trs="Error", tst=True),
+      "oom": P("Failed", cs="term", code=137, trs="OOMKilled", tst=True), "term143": P("Failed", cs="term", code=143, trs="Error", tst=True),
+      "sig15": P("Failed", cs="term", code=143, trs="Error", sig=15, tst=True), "deadline": P("Failed", "DeadlineExceeded", "term", 137, "Error", 0, True),
+      "deadline0": P("Failed", "DeadlineExceeded"), "evicted": P("Failed", "Evicted"), "evicted137": P("Failed", "Evicted", "term", 137, "Error", 0, True),
+      "nostart": P("Failed", cs="term", code=128, trs="ContainerCannotRun"), "okoom": P("Succeeded", cs="term", trs="OOMKilled", tst=True),
+      "two": P("Running", cs="two"), "nophase": P("None")}
+TERMINAL = ("ok", "err", "oom", "term143", "sig15", "deadline", "deadline0", "evicted", "evicted137", "nostart", "okoom")
+
+
+def env_moves(rnd, job, pods):
+    """plausible next situations of the cluster (and now and then an odd one); -> list of (job, pods)"""
+    out = []
+    kind = next((k for k, v in PK.items() if pods and v == pods[0]), None)
+    if job == "new" and not pods:
+        out += [("active", [PK["unsched"]])] * 4
+    if len(pods) == 1:
+        nxt = {"unsched": ["creating", "errpull", "running", "evicted", "deadline0"], "errpull": ["creating", "errpull", "deadline0"], "creating": ["running", "nostart"],
+               "running": ["ok", "ok", "err", "oom", "term143", "sig15", "deadline", "evicted", "evicted137", "lost", "okoom", "two"], "lost": ["running", "unsched"],
+               "two": ["running"]}.get(kind, [])
+        out += [(job, [PK[k]]) for k in nxt]
+        if kind in TERMINAL and job in ("active", "idle"):
+            good = pods[0]["ph"] == "Succeeded"
+            out += [("complete" if good else "failed", pods)] * 4 + [("idle", pods), ("otherok" if good else "other", pods)]
+        if job == "active" and kind not in TERMINAL:
+            out.append((job, [pods[0], PK["unsched"]]))
+        if job in ("complete", "failed"):
+            out.append((job, []))
+        if rnd.random() < 0.05:
+            out.append((job, []))
+    if len(pods) == 2:
+        out += [(job, [pods[1]])] * 3
+    if job in ("new", "active", "idle", "complete", "failed") and rnd.random() < 0.15:
+        out.append(("gone", pods))
+    if job == "gone" and pods:
+        out += [("gone", [])] * 2
+    return out
+
+
+def random_run(seed, d):
+    """One seeded random schedule on the real task.  -> [step records]"""
+    from .. import world_g06 as G
+    rnd = random.Random(seed)
+    D = G.Driver(d)
+    trace = []
+
+    def log(ev, f=None, conf=None, kind="ok", o=None):
+        v = real_view(D)
+        rec = {"ev": ev, "from": 99, "kind": "ok", "midn": 0, "midjob": "none", "midpods": [], "gc": "none", "archive": "none", "cache": True,
+               "job": v["job"], "pods": v["pods"], "created": v["created"], "calls": (o or {}).get("calls", []), "raised": (o or {}).get("raised", "none"),
+               "st": "-", "rs": "none", "rc": -1, "started": False, "pull": 5, "errs": 0, "age": -1000, "off": 0, "cached": False, "closed": False, "done": False,
+               "terminated": False, "called": False, "req": False, "archived": 0, "ndel": 0, "alive": True, "prc": -1, "reason": "none", "status": "-"}
+        if f is not None:
+            rec.update({"from": f["from"], "kind": f["kind"], "midn": f["midn"], "midjob": f["midcl"]["job"], "midpods": f["midcl"]["pods"]})
+        if conf is not None:
+            rec.update(gc=conf[0], archive=conf[1], cache=conf[2], kind=kind)
+        if v["created"]:
+            rec.update(st=v["last"][0], rs=v["last"][1], rc=v["last"][2], prc=v["rc"], **{k: v[k] for k in (
+                "started", "pull", "errs", "age", "off", "cached", "closed", "done", "terminated", "called", "req", "archived", "ndel", "alive", "reason", "status")})
+        trace.append(rec)
+    try:
+        conf = (rnd.choice(["none", "none", "all", "failed", "successful"]), rnd.choice(["none", "none", "all", "failed", "successful"]), rnd.random() < 0.8)
+        kind = rnd.choice(["ok"] * 12 + ["e403", "e504", "conn", "blip504", "blipconn"])
+        D.configure(conf[0], conf[1])
+        o = D.construct(G.Script(None if kind == "ok" else 1, None if kind == "ok" else kind), cache_image=conf[2])
+        log("Create", conf=conf, kind=kind, o=o)
+        if D.task is None:
+            return trace, None
+        nofail = {"from": 99, "kind": "ok", "midn": 0, "midcl": {"job": "none", "pods": []}}
+        sick = 0            # a failing API tends to stay so for a few steps
+        for _ in range(rnd.choice([8, 14, 22, 30])):
+            c = D.cluster
+            alive = D.task.isAlive()
+            done = D.tick_item() is None
+            r = rnd.random()
+            f = dict(nofail)
+            if sick > 0 or rnd.random() < 0.2:
+                if sick <= 0:
+                    sick = rnd.choice([1, 1, 2, 4, 6])
+                    sick_kind = rnd.choice(ALL_KINDS)
+                    sick_from = rnd.choice([1, 1, 1, 2, 3, 4, 5, 6])
+                f.update({"from": sick_from, "kind": sick_kind})
+            if r < 0.33:
+                moves = env_moves(rnd, c.job["st"], [{k: p[k] for k in ("ph", "prs", "cs", "code", "trs", "sig", "tst")} for p in c.pods])
+                if not moves:
+                    continue
+                job, pods = rnd.choice(moves)
+                c.apply(("job", job))
+                c.apply(("pods", pods))
+                c.begin_step()
+                D.raised = None
+                log("Env")
+            elif r < 0.78:
+                if done:
+                    continue
+                if f["from"] >= 99 and rnd.random() < 0.2 and D.task.status not in ("finished", "failed"):
+                    moves = env_moves(rnd, c.job["st"], [{k: p[k] for k in ("ph", "prs", "cs", "code", "trs", "sig", "tst")} for p in c.pods])
+                    if moves:
+                        job, pods = rnd.choice(moves)
+                        f.update(midn=rnd.choice([1, 2]), midcl={"job": job, "pods": pods})
+                if f["from"] < 99:
+                    sick -= 1
+                log("Tick", f, o=D.tick(script_of(f)))
+            elif r < 0.86:
+                if f["from"] < 99:
+                    sick -= 1
+                log("Kill", f, o=D.kill(script_of(f), how=rnd.choice(["kill", "terminate"])))
+            elif r < 0.90:
+                if not alive:
+                    continue
+                if f["from"] < 99:
+                    sick -= 1
+                log("Interrupt", f, o=D.wait_interrupt(script_of(f)))
+            else:
+                log("WaitPeek", o=D.wait_peek())
+            if D.cluster.unexpected:
+                return trace, ("trace:unknown-request", "request(s) the cluster model does not know: %s" % D.cluster.unexpected)
+        return trace, None
+    finally:
+        D.close()
+
+
+def _runs_chunk(args):
+    seeds, d = args
+    import logging
+    logging.disable(logging.CRITICAL)
+    out = []
+    for sd in seeds:
+        try:
+            tr, problem = random_run(sd, d)
+            out.append((sd, tr, problem))
+        except Exception as e:      # noqa
+            import traceback
+            out.append((sd, [], ("trace:exception:%s" % type(e).__name__, traceback.format_exc()[-1200:])))
+    shutil.rmtree(d, ignore_errors=True)
+    return out
+
+
+def tla(v):
+    if isinstance(v, bool):
+        return "TRUE" if v else "FALSE"
+    if isinstance(v, int):
+        return str(v) if v >= 0 else "(0 - %d)" % -v
+    if isinstance(v, float):
+        if v.is_integer():
+            return tla(int(v))
+        raise MachineryError("non-integral time %r in a recorded run (the clock of the harness drifted from the 5 s grid)" % v)
+    if isinstance(v, str):
+        return '"%s"' % v
+    if isinstance(v, (list, tuple)):
+        return "<<" + ", ".join(tla(x) for x in v) + ">>"
+    if isinstance(v, dict):
+        return "[" + ", ".join("%s |-> %s" % (k, tla(x)) for k, x in v.items()) + "]"
+    raise MachineryError("cannot render %r" % (v,))
+
+
+TRACE_CONSTS = dict(Gcs='{"none", "all", "failed", "successful"}', Archives='{"none", "all", "failed", "successful"}', Caches="{TRUE, FALSE}",
+                    CreateKinds='{"ok", "e403", "e504", "conn", "blip504", "blipconn"}', Kinds=sset(ALL_KINDS), Froms="{1}", KillFroms="{1}", Mids="{1, 2}",
+                    MaxTicks=98, MaxKills=98, MaxBad=98, MaxMid=98, MaxPeek=98, Outcomes=sset(ALL_OUT), Interrupts="TRUE")
+TRACE_PROPS = ["TFinalStaysFinal", "TDeadStaysDead", "TVerdictStable", "TQuietWhenOver", "TForwardOnly"]
+TRACE_INV = ["ResultIffDead", "DeadIsFinal", "FinishedIsSuccess", "NotFinalNoVerdict", "TerminatedMeansDeleted", "EscapeRule"]
+
+
+def validate_traces(chk, tag, traces):
+    """traces: [[step, ...], ...] -> ({index: matched steps} of the rejected ones | {"property": name}, tlc result)"""
+    d = os.path.join(GEN, "trace_%s" % tag)
+    shutil.rmtree(d, ignore_errors=True)
+    os.makedirs(d)
+    for f in ("K8sTask.tla", "K8sTask_trace.tla"):
+        shutil.copy(os.path.join(SPEC, f), os.path.join(d, f))
+    with open(os.path.join(d, "K8sTaskTraceData.tla"), "w") as f:
+        f.write("---- MODULE K8sTaskTraceData ----\nEXTENDS Integers, TLC\nTraces == <<\n  %s\n>>\n====\n" % ",\n  ".join(
+            "[steps |-> <<%s>>]" % ",\n    ".join(tla(s) for s in steps) for steps in traces))
+    text = ("SPECIFICATION TraceSpec\nCONSTRAINT Furthest\nPOSTCONDITION AllAccepted\n" + "".join("PROPERTY %s\n" % p for p in TRACE_PROPS)
+            + "".join("INVARIANT %s\n" % i for i in TRACE_INV))
+    cpath = cfg("trace_%s" % tag, TRACE_CONSTS, text)
+    shutil.copy(cpath, os.path.join(d, "trace.cfg"))
+    r = tlc.run_tlc("K8sTask_trace", os.path.join(d, "trace.cfg"), specdir=d, workers=1, timeout=1500, expect_violation=True)
+    chk.add_tlc(r)
+    out = r["out"]
+    rejected = {}
+    m = re.search(r'<<\s*"REJECTED",(.*?)>>\s*\nError', out, re.S)
+    if m:
+        pairs = re.findall(r"(\d+) :> (\d+)", m.group(1))
+        if not pairs:
+            pairs = [(str(i + 1), v) for i, v in enumerate(re.findall(r"\d+", m.group(1)))]
+        if not pairs:
+            raise MachineryError("cannot parse REJECTED report: %s" % m.group(1)[:300])
+        for t, ll in pairs:
+            rejected[int(t) - 1] = int(ll)
+    elif not r["ok"]:
+        v = violated_of(r)
+        if v in TRACE_PROPS or v in TRACE_INV:
+            return {"property": v}, r
+        raise MachineryError("trace validation failed to run:\n%s" % out[-3000:])
+    shutil.rmtree(d, ignore_errors=True)
+    return rejected, r
+
+
+def code_to_spec(chk, tier, only_seed=None):
+    n = 240 if tier == "quick" else 2400
+    seeds = [chk.seed * 1000003 + i for i in range(n)] if only_seed is None else [only_seed]
+    k = max(1, (len(seeds) + 13) // 14)
+    res = pool_map(_runs_chunk, [(seeds[i:i + k], os.path.join(chk.scratch, "rr_%d" % i)) for i in range(0, len(seeds), k)])
+    runs = []
+    for chunk in res:
+        for sd, tr, problem in chunk:
+            if problem:
+                chk.violation(problem[0], "seed %d: %s" % (sd, problem[1]), {"kind": "trace", "seed": sd})
+            else:
+                runs.append((sd, tr))
+    batches = [runs[i:i + 300] for i in range(0, len(runs), 300)]
+    from concurrent.futures import ThreadPoolExecutor
+    with ThreadPoolExecutor(4) as ex:
+        results = list(ex.map(lambda ib: validate_traces(chk, "random%d" % ib[0], [tr for _sd, tr in ib[1]]), enumerate(batches)))
+    events, nsteps, nacc, good = {}, 0, 0, []
+    for batch, (rej, _r) in zip(batches, results):
+        if "property" in rej:
+            chk.violation("trace:property:%s" % rej["property"], "a recorded run of the real task violates %s" % rej["property"], {"kind": "trace-batch"})
+            continue
+        for i, (sd, tr) in enumerate(batch):
+            chk.evaluated(("trace", sd))
+            if i in rej:
+                s = tr[rej[i]] if rej[i] < len(tr) else {}
+                what = s.get("ev") if s.get("from", 99) >= 99 else "%s-with-failing-request" % s.get("ev")
+                chk.violation("trace:no-step-of-the-specification:%s" % what, "seed %d: step %d (%s, script %s@%s mid %s) of the recorded run is not the step the "
+                              "specification computes after %s; recorded: %s" % (sd, rej[i] + 1, s.get("ev"), s.get("kind"), s.get("from"), s.get("midn"),
+                                                                                  [x["ev"] for x in tr[:rej[i]]], json.dumps(s)[:1200]), {"kind": "trace", "seed": sd})
+            else:
+                chk.trace_validated()
+                nacc += 1
+                nsteps += len(tr)
+                good.append(tr)
+                for st in tr:
+                    name = st["ev"] if st["ev"] not in ("Tick", "Kill") else st["ev"] + ("Bad" if st["from"] < 99 else "Mid" if st["midn"] else "")
+                    events[name] = events.get(name, 0) + 1
+    missing = set(ACTIONS) - set(events)
+    if missing and not chk.violations and only_seed is None:
+        raise MachineryError("no validated recorded run takes the trace-spec step(s) %s" % sorted(missing))
+    chk.cov["recorded_runs_validated"] = nacc
+    chk.cov["recorded_steps_validated"] = nsteps
+    chk.cov["recorded_steps_by_action"] = events
+    if only_seed is not None:
+        return
+    # self-test of the binding: corrupt one recorded field per run, the runs must be rejected
+    pick = [tr for tr in good if any(s["ev"] == "Tick" and s["created"] and s["st"] in ("finished", "failed") for s in tr)][:4]
+    if len(pick) < 3:
+        raise MachineryError("no recorded run with a verdict to corrupt")
+    bad_runs = []
+    for j, tr in enumerate(pick):
+        tr2 = [dict(s) for s in tr]
+        k_ = max(i for i, s in enumerate(tr2) if s["ev"] == "Tick" and s["st"] in ("finished", "failed"))
+        if j == 0:
+            tr2[k_]["rs"] = tr2[k_]["reason"] = "KnownIssue" if tr2[k_]["rs"] != "KnownIssue" else "Killed"
+        elif j == 1:
+            kk = next(i for i, s in enumerate(tr2) if s["calls"])
+            tr2[kk]["calls"] = tr2[kk]["calls"] + ["list_pods"]
+        elif j == 2:
+            tr2[k_]["alive"] = not tr2[k_]["alive"]
+        else:
+            tr2[k_]["pull"] = tr2[k_]["pull"] - 1
+        bad_runs.append(tr2)
+    rej2, _r = validate_traces(chk, "corrupt", bad_runs)
+    if "property" in rej2 or len(rej2) != len(bad_runs):
+        raise MachineryError("self-test: corrupted traces were accepted by K8sTask_trace.tla (%s of %d rejected)" % (rej2, len(bad_runs)))
+    chk.cov["corrupted_traces_rejected"] = len(rej2)
+
+
+# --------------------------------------------------------------------------------------------------------------------------
+# 4. function specifications
+
+def emit_cases(chk, name, consts, inv):
+    r = tlc.run_tlc(MODULE, cfg(name, dict(consts, Emit="TRUE"), "INIT Init\nNEXT Next\nINVARIANT %s\n" % inv), workers=1, timeout=1500)
+    must_hold(chk, r, "case emission %s" % name)
+    seen, out = set(), []
+    for c in r["cases"]:
+        k = json.dumps(c["case"], sort_keys=True)
+        if k not in seen:
+            seen.add(k)
+            out.append(c)
+    r["cases"] = []
+    r["out"] = ""
+    return out
+
+
+def _map_chunk(args):
+    cases, d = args
+    import datetime
+    import logging
+    logging.disable(logging.CRITICAL)
+    from .. import world_g06 as G
+    D = G.Driver(d)
+    out = []
+    try:
+        D.construct()
+        t = D.task
+        for c in cases:
+            case, want = c["case"], c["res"]
+            D.cluster.apply(("job", case["job"]))
+            D.cluster.apply(("pods", case["pods"]))
+            la = case["last"]
+            t.lastReportedState = (la["st"], None if la["rs"] == "none" else la["rs"], None if la["rc"] < 0 else la["rc"])
+            t._epoch_started = (G.EPOCH + datetime.timedelta(seconds=1)) if case["started"] else None
+            t._remaining_image_pull_errors = case["pull"]
+            t0 = D.world.now
+            t.api_unavailable_since = None if case["age"] <= -1000 else G.EPOCH + datetime.timedelta(seconds=t0 - case["age"] * G.UNIT)
+            f = case["f"]
+            D.cluster.begin_step(G.Script(f["from"] if f["from"] < 99 else None, f["kind"] if f["from"] < 99 else None))
+            try:
+                x = t._getTaskState()           # the pipeline calls it through a wrapper that turns any exception into None
+            except Exception:       # noqa
+                x = None
+            if x is None:
+                gx = {"k": "none", "st": "-", "rs": "none", "rc": -1}
+            else:
+                gx = {"k": "val", "st": x[0] if x[0] is not None else "None", "rs": x[1] or "none", "rc": -1 if x[2] is None else x[2]}
+            since = t.api_unavailable_since
+            got = {"x": gx, "started": t._epoch_started is not None, "pull": t._remaining_image_pull_errors,
+                   "age": -1000 if since is None else _num((t0 - (since - G.EPOCH).total_seconds()) / G.UNIT), "off": _num((D.world.now - t0) / G.UNIT),
+                   "calls": list(D.cluster.calls)}
+            out.append(None if got == want else (got, want))
+    finally:
+        D.close()
+        shutil.rmtree(d, ignore_errors=True)
+    return out
+
+
+def map_key(case):
+    pods = case["pods"]
+    p = pods[0] if len(pods) == 1 else None
+    shape = "no-pod" if not pods else "two-pods" if len(pods) > 1 else "%s/%s/%s" % (p["ph"], p["prs"], p["cs"] if p["cs"] != "term" else "term%d-%s-sig%d%s" % (
+        p["code"], p["trs"], p["sig"], "" if p["tst"] else "-nostart"))
+    f = case["f"]
+    return "map:job-%s:%s%s" % (case["job"], shape, "" if f["from"] >= 99 else ":%s@%d" % (f["kind"], f["from"]))
+
+
+def function_specs(chk, tier):
+    cases = emit_cases(chk, "map_grid", dict(Part='"map"', MapSlice='"full"' if tier == "thorough" else '"quick"'), "EmitMap")
+    cases += emit_cases(chk, "map_api", dict(Part='"map"', MapSlice='"api"'), "EmitMap")
+    if len(cases) < 20000:
+        raise MachineryError("TLC emitted only %d cases of _getTaskState" % len(cases))
+    k = (len(cases) + 13) // 14
+    chunks = [(cases[i:i + k], os.path.join(chk.scratch, "map_%d" % i)) for i in range(0, len(cases), k)]
+    res = pool_map(_map_chunk, chunks)
+    n = 0
+    for (cs, _d), rr in zip(chunks, res):
+        for c, r in zip(cs, rr):
+            n += 1
+            chk.evaluated(("map", json.dumps(c["case"], sort_keys=True)))
+            if r is not None:
+                fields, det = diff(r[0], r[1])
+                chk.violation(map_key(c["case"]) + ":" + "+".join(fields), "_getTaskState with job %s, pods %s, memory last=%s started=%s pull=%s age=%s, API %s: %s" % (
+                    c["case"]["job"], json.dumps(c["case"]["pods"]), c["case"]["last"]["st"], c["case"]["started"], c["case"]["pull"], c["case"]["age"],
+                    c["case"]["f"], det), {"kind": "map", "case": c})
+            if c["case"]["job"] == "complete" and not c["case"]["pods"] and c["case"]["f"]["from"] >= 99 and c["res"]["x"]["rs"] != "Success":
+                FOUND[F_PODGONE] = FOUND.get(F_PODGONE, 0) + (r is None)
+            if c["case"]["job"] == "other" and c["res"]["x"]["st"] == "None":
+                FOUND[F_COND] = FOUND.get(F_COND, 0) + (r is None)
+    chk.cov["getTaskState_cases"] = n
+    # isAlive / returncode / exitReason / status / poll
+    ex = emit_cases(chk, "exit_grid", dict(Part='"exit"'), "EmitExit")
+    if len(ex) < 1000:
+        raise MachineryError("TLC emitted only %d cases of exitReason" % len(ex))
+    bad = _exit_cases(ex, os.path.join(chk.scratch, "exit"))
+    for c, got in bad:
+        fields, det = diff(got, c["res"])
+        la = c["case"]["last"]
+        chk.violation("exit:%s:rs-%s:rc-%s:%s" % (la["st"], la["rs"], "none" if la["rc"] < 0 else "0" if la["rc"] == 0 else "low" if la["rc"] < 128 else "high", "+".join(fields)),
+                      "lastReportedState %s, stdout closed %s, terminated %s: %s" % ([la["st"], la["rs"], la["rc"]], c["case"]["closed"], c["case"]["terminated"], det),
+                      {"kind": "exit", "case": c})
+    for c in ex:
+        chk.evaluated(("exit", json.dumps(c["case"], sort_keys=True)))
+    chk.cov["exitReason_cases"] = len(ex)
+
+
+def _exit_cases(cases, d):
+    import logging
+    logging.disable(logging.CRITICAL)
+    from .. import world_g06 as G
+    D = G.Driver(d)
+    bad = []
+    try:
+        D.construct()
+        t = D.task
+        real_stdout = t.stdout
+        shut = open(os.devnull, "ab")
+        shut.close()
+        for c in cases:
+            case = c["case"]
+            la = case["last"]
+            t.lastReportedState = (None if la["st"] == "None" else la["st"], None if la["rs"] == "none" else la["rs"], None if la["rc"] < 0 else la["rc"])
+            t.terminated = case["terminated"]
+            t.stdout = shut if case["closed"] else real_stdout
+            try:
+                rc = t.returncode
+                got = {"alive": t.isAlive(), "rc": -1 if rc is None else rc, "reason": t.exitReason or "none", "status": t.status if t.status is not None else "None"}
+                if t.poll() != rc:
+                    got["poll"] = t.poll()
+            except Exception as e:      # noqa
+                got = {"error": repr(e)}
+            if got != c["res"]:
+                bad.append((c, got))
+        t.stdout = real_stdout
+    finally:
+        D.close()
+        shutil.rmtree(d, ignore_errors=True)
+    return bad
 
 
 # --------------------------------------------------------------------------------------------------------------------------
@@ -485,7 +925,11 @@ def run(tier):
         t1 = time.time()
         spec_to_code(chk, tier)
         t2 = time.time()
-        chk.cov["phase_wall_s"] = dict(model=round(t1 - t0, 1), cover=round(t2 - t1, 1))
+        code_to_spec(chk, tier)
+        t3 = time.time()
+        function_specs(chk, tier)
+        t4 = time.time()
+        chk.cov["phase_wall_s"] = dict(model=round(t1 - t0, 1), cover=round(t2 - t1, 1), traces=round(t3 - t2, 1), functions=round(t4 - t3, 1))
         report_findings(chk)
         return chk.finish()
     finally:
